@@ -334,7 +334,10 @@ class Check:
         self.known_hits = []
         self.known = load_known(prop)
         self.rng = random.Random(self.seed)
-        self.replay_dir = os.path.join(VERIF, "evidence", "replay", prop)
+        # VERIF_EVIDENCE: where evidence and replay files go (default /verif/evidence); runs against seeded changes set it to a
+        # scratch directory so that the committed evidence always describes a run on /repo's own tree
+        self.evidence_dir = os.environ.get("VERIF_EVIDENCE") or os.path.join(VERIF, "evidence")
+        self.replay_dir = os.path.join(self.evidence_dir, "replay", prop)
         shutil.rmtree(self.replay_dir, ignore_errors=True)      # replay artefacts belong to one run
 
     @property
@@ -377,8 +380,8 @@ class Check:
               "violations": len(self.violations), "known_findings_hit": self.known_hits}
         if not self.cov["samples"]:
             self.cov["samples"] = ["(no sample recorded)"]
-        os.makedirs(os.path.join(VERIF, "evidence"), exist_ok=True)
-        with open(os.path.join(VERIF, "evidence", self.prop + ".json"), "w") as f:
+        os.makedirs(self.evidence_dir, exist_ok=True)
+        with open(os.path.join(self.evidence_dir, self.prop + ".json"), "w") as f:
             json.dump(ev, f, indent=1, default=str)
         for k in self.known_hits:
             print("KNOWN-FINDING: property=%s %s" % (self.prop, self.known[k].get("what", k)))
